@@ -11,7 +11,10 @@ from vlib.runner import hyp
 
 PROPERTY = 'C04'
 LEVEL = 'exploration'
-RULE = ('All known protocol numbers (every one, enumerated from the version '
+RULE = ('Through a connection: a packet with a Position field and a '
+        'context of another version written via Connection.write_packet goes '
+        'out in the layout of the connection\'s version. '
+        'All known protocol numbers (every one, enumerated from the version '
         'records) x the full product of per-axis boundary sets (10 x 7 x 10 '
         'triples) given as Position, Vector and plain tuple, plus every '
         '64-bit word with one bit / two adjacent bits set and the sign '
